@@ -99,8 +99,8 @@ CLAIMS["C14"] = (
     "3/C14")
 
 CLAIMS["C04"] = (
-    "Provenance and ordering rules on both receive paths: the payload of every segment that leaves the reader is the result of an AEAD open that returned nil (or nil); every read size and every slice bound on attacker-controlled bytes is a field of the metadata that was itself opened and parsed with nil error (+ constants); a stream authentication or parse failure ends the read loop for that connection, a datagram failure discards that datagram's segment and never reaches the session; the direction gate on protocol numbers is folded for all 16 values; per-datagram nonce sharing between metadata and payload is inventoried.",
-    "Decides rules R04.1, R04.2, R04.4-R04.7. Not decided: the strength of XChaCha20-Poly1305 itself, what the application finally reads (C01/C02), unauthenticated padding bytes (they are never delivered, R04.1). Known finding F12 (R04.7): on UDP metadata and payload are sealed under the same key and nonce without domain separation, so the two ciphertexts of one datagram are interchangeable (demonstrated in demos/F12)." + COMMON_NOTE,
+    "Provenance and ordering rules on both receive paths: the payload of every segment that leaves the reader is the result of an AEAD open that returned nil (or nil); every read size and every slice bound on attacker-controlled bytes is a field of the metadata that was itself opened and parsed with nil error (+ constants); a stream authentication or parse failure ends the read loop for that connection, a datagram failure discards that datagram's segment and never reaches the session; the direction gate on protocol numbers is folded for all 16 values; per-datagram nonce sharing between metadata and payload is inventoried; on the datagram transport a segment type of the wrong direction (an inserted or reflected datagram) is dropped with a nil return for all 16 protocol numbers on both roles instead of an error that would close the session.",
+    "Decides rules R04.1, R04.2, R04.4-R04.8. Defect F13 (a reflected datagram ended the session; demos/F13) was repaired in /repo b4402cd. Not decided: the strength of XChaCha20-Poly1305 itself, what the application finally reads (C01/C02), unauthenticated padding bytes (they are never delivered, R04.1). Known finding F12 (R04.7): on UDP metadata and payload are sealed under the same key and nonce without domain separation, so the two ciphertexts of one datagram are interchangeable (demonstrated in demos/F12)." + COMMON_NOTE,
     "provenance slices through go/ssa (phi, convert, defer-spilled results), nil-error edge detection, dominance, path-cut reachability, constant folding of the direction gate",
     "3/C04")
 
